@@ -113,7 +113,8 @@ def check(run):
     o = run.ob("O17.3", "every panic site in sampler constructors and sample* bodies is reviewed",
                "'can be constructed for every validator set with positive stakes and then always returns a committee' fails at exactly these sites", floor=30)
     roots = C16.sampling_roots(prog) | C16.constructor_roots(prog) | {ROTOR + "::sample_relay", ROTOR + "::sample_relays"}
-    nb, ns = panics.review(o, prog, sorted(roots), REVIEWED, fshort)
+    from . import panic_review as _PR
+    nb, ns = panics.review(o, prog, sorted(roots), REVIEWED, fshort, auto=_PR.auto)
     run.notes.append("O17.3: %d bodies, %d panic sites (overflow asserts out of scope); float-dependent sites are named in their reason" % (nb, ns))
 
     # ------------------------------------------------------------------ O17.4
@@ -157,8 +158,30 @@ def check(run):
         o.check(ok, "ShredIndex::new|bounded", "ShredIndex::new returns Some only below TOTAL_SHREDS", nb_.span)
 
     ob_fa1_phase1(run, "O17.5")
+    ob_fa2_fractions(run, "O17.11")
     ob_decay_cap(run, "O17.6")
     ob_committee_size(run, "O17.7")
+
+
+def ob_fa2_fractions(run, oid):
+    """FaitAccompli2Sampler::minimize_f: the rounded seat fractions f_i = round(stake_i / total * k) / k"""
+    from engine import paths
+    prog = run.program("lib")
+    o = run.ob(oid, "FA2's rounded seat fraction of a validator is an integral number of seats DIVIDED by k (f_i = round(..) / k), so that a validator sitting exactly on m/k gets "
+                    "exactly the float m/k",
+               "m * (1/k) can be one ulp above m/k when k is not a power of two: the validator then counts as 'above its stake' (extra probabilistic seat on top of its m deterministic "
+               "ones: committee larger than k) and the sum of fractions can exceed 1 (constructor panics)", floor=1)
+    cls = [b for d, b in prog.bodies.items() if d.startswith(SS + "FaitAccompli2Sampler::") and b.is_closure]
+    found = 0
+    for cb in cls:
+        for atoms, ret, _bl in paths.decision_table(cb, prog):
+            t = K.peel(ret) if ret is not None else None
+            if not (isinstance(t, tuple) and t and K.mentions_call(t, "round")):
+                continue
+            found += 1
+            ok = t[0] == "bin" and t[1] == "Div" and K.mentions_call(t[2], "round") and K.mentions(t[3], lambda x: x[0] == "upvar" or x[0] == "param") and not K.mentions_call(t[3], "round")
+            o.check(ok, "minimize_f|fraction|round-div-k", "f_i = round(raw seats) / k (a division by k as the last step)", cb.span, {"term": mir.show(t)[:160]})
+    o.check(found >= 1, "minimize_f|fraction|found", "%d rounded-fraction expression(s) examined" % found, cls[0].span if cls else "")
 
 
 def ob_fa1_phase1(run, oid):
